@@ -3,16 +3,42 @@
  * process; the k-th malloc made during the first key expansion fails once. */
 #include "hcommon.h"
 #include "crypto_aes.c"
+#include "crypto_aesctr.h"
+
+void aesfail_ctr_reset(void);
 
 void * __real_malloc(size_t);
+void __real_free(void *);
 static long fail_at, nmalloc;
+/* `misalign`: blocks handed to the library start 8 bytes past a 16-byte boundary (the case ALIGN_PTR exists for) */
+static int misalign;
+#define NMIS 256
+static void * mis[NMIS];
 void *
 __wrap_malloc(size_t n)
 {
+	uint8_t * p;
+	int i;
 
 	if (fail_at > 0 && ++nmalloc == fail_at)
 		return (NULL);
-	return (__real_malloc(n));
+	if (!misalign)
+		return (__real_malloc(n));
+	if ((p = __real_malloc(n + 8)) == NULL)
+		return (NULL);
+	for (i = 0; i < NMIS; i++)
+		if (mis[i] == NULL) { mis[i] = p + 8; break; }
+	return (p + 8);
+}
+void
+__wrap_free(void * p)
+{
+	int i;
+
+	if (p != NULL)
+		for (i = 0; i < NMIS; i++)
+			if (mis[i] == p) { mis[i] = NULL; __real_free((uint8_t *)p - 8); return; }
+	__real_free(p);
 }
 
 int
@@ -22,14 +48,17 @@ main(void)
 	while (hc_next()) {
 		if (hc_is("case", 1)) {
 			printf("case %s", hc_tok[1]);
-		} else if (hc_is("aesfail", 4)) {
+		} else if (hc_is("aesfail", 4) || hc_is("aesfail", 5)) {
 			size_t l1, l2, lb;
 			uint8_t * k1b = hc_unhex(hc_tok[2], &l1), * blk = hc_unhex(hc_tok[3], &lb), * k2b = hc_unhex(hc_tok[4], &l2);
 			struct crypto_aes_key * k1, * k2;
-			uint8_t c1[16], c2[16];
+			uint8_t c1[16], c2[16], sin[48], sout[48];
 			long k = atol(hc_tok[1]);
+			int j;
 
+			misalign = (hc_ntok == 6);	/* a fifth argument: hand out blocks that are 8 mod 16 */
 			hwaccel = HW_UNSET;		/* as in a fresh process */
+			aesfail_ctr_reset();
 			nmalloc = 0;
 			fail_at = k;
 			k1 = crypto_aes_key_expand(k1b, l1);
@@ -41,11 +70,15 @@ main(void)
 				k2 = crypto_aes_key_expand(k2b, l2);
 				crypto_aes_encrypt_block(blk, c1, k1);
 				if (k2 != NULL) crypto_aes_encrypt_block(blk, c2, k2); else memset(c2, 0, 16);
-				printf("ct "); hc_puthex(c1, 16); putchar(' '); hc_puthex(c2, 16);
+				/* and a 48-byte AES-CTR call (>= 16 bytes: the bulk path if it is selected) with the first key */
+				for (j = 0; j < 48; j++) sin[j] = (uint8_t)(blk[j % 16] + j);
+				crypto_aesctr_buf(k1, 7, sin, sout, 48);
+				printf("ct "); hc_puthex(c1, 16); putchar(' '); hc_puthex(c2, 16); putchar(' '); hc_puthex(sout, 48);
 				printf(" | mallocs=%ld hw=%d", nmalloc, (int)hwaccel);
 				crypto_aes_key_free(k1);
 				crypto_aes_key_free(k2);
 			}
+			misalign = 0;
 			free(k1b); free(blk); free(k2b);
 		} else
 			printf("bad-op");
